@@ -65,6 +65,8 @@ func runC02(env *Env, tier string) {
 	logonRace := ch.Chance("logonrace", 1, 3)
 	if logonRace {
 		c.ResetOnLogon = ch.Chance("resetonlogon", 1, 3)
+		// RefreshOnLogon re-reads the store from its backing file/database while senders may be active
+		c.RefreshOnLogon = c.Store != "memory" && ch.Chance("refreshonlogon", 1, 3)
 	}
 	s := StartSut(env, c)
 	p := s.P
@@ -432,18 +434,37 @@ func judgeC02(env *Env, s *Sut, c EngineCfg, ops []c02op, startN int, rrNs []int
 	var saves []sv
 	var resetNs []int
 	epoch := 0
+	// Numbers whose assigning write failed (injected disk error), and the successful refreshes: the failed
+	// write may have reached the counter file all the same (written, not synced), and a later refresh then
+	// legitimately continues one number further on.
+	failedAt := map[int][]int{}
+	var refreshNs []int
 	anyFailedReset := false
+	anyStoreError := false
 	failedReset := 0 // a Reset that returned an error (injected disk fault) may or may not have taken effect
 	for _, call := range calls {
 		if call.Err != "" {
+			anyStoreError = true
 			if call.Op == "Reset" {
 				failedReset = call.N
 				anyFailedReset = true
+			}
+			if call.Op == "SaveIncr" {
+				failedAt[call.A] = append(failedAt[call.A], call.N)
+			}
+			if call.Op == "Refresh" {
+				// a refresh that failed half-way (injected disk error) leaves the store with closed files
+				// and reset counters until the next successful one (see DESIGN 8.7): like a failed Reset it
+				// may or may not start the numbering over
+				anyFailedReset = true
+				failedReset = call.N
 			}
 			continue
 		}
 		num := -1
 		switch call.Op {
+		case "Refresh":
+			refreshNs = append(refreshNs, call.N)
 		case "Reset":
 			epoch++
 			resetNs = append(resetNs, call.N)
@@ -481,7 +502,17 @@ func judgeC02(env *Env, s *Sut, c EngineCfg, ops []c02op, startN int, rrNs []int
 	// (i) the numbers handed out in one epoch are n, n+1, n+2, ... without gap or repeat; a new epoch starts at 1
 	for i := 1; i < len(saves); i++ {
 		if saves[i].epoch == saves[i-1].epoch {
-			if saves[i].num != saves[i-1].num+1 {
+			skippedAfterFailedWrite := false
+			if saves[i].num == saves[i-1].num+2 {
+				for _, fn := range failedAt[saves[i-1].num+1] {
+					for _, rn := range refreshNs {
+						if fn > saves[i-1].n && fn < rn && rn < saves[i].n {
+							skippedAfterFailedWrite = true
+						}
+					}
+				}
+			}
+			if saves[i].num != saves[i-1].num+1 && !skippedAfterFailedWrite {
 				env.Violate("C02/numbering", "numbers handed out in store-call order: ... %d (task %s), then %d (task %s)", saves[i-1].num, saves[i-1].task, saves[i].num, saves[i].task)
 				return
 			}
@@ -617,7 +648,9 @@ func judgeC02(env *Env, s *Sut, c EngineCfg, ops []c02op, startN int, rrNs []int
 	}
 	// store agrees at quiescence (not judged after a Reset that failed half-way under an injected disk error:
 	// what the store then holds is neither the old nor the new epoch, and no listed statement says which)
-	if st := s.E.Store(); st != nil && len(saves) > 0 && !anyFailedReset {
+	// (nor after any other store call failed under an injected error: the numbers handed out and what reached
+	// the wire are judged above; what exactly a store holds after it reported a failure is C16/C17's subject)
+	if st := s.E.Store(); st != nil && len(saves) > 0 && !anyFailedReset && !anyStoreError {
 		last := saves[len(saves)-1]
 		if last.epoch == len(resetNs) {
 			if got := st.inner.NextSenderMsgSeqNum(); got != last.num+1 {
